@@ -27,6 +27,8 @@ pub enum Ini {
     SubIdViol,
     /// PUBLISH with an empty topic and an alias that was never defined -> 0x94
     AliasUnknown,
+    /// PUBLISH with an empty topic and a never-defined alias above Topic Alias Maximum -> 0x94 as well
+    AliasUnknownBig,
     /// packet larger than the announced maximum packet size -> 0x95
     TooLarge,
     /// undecodable bytes
@@ -68,7 +70,7 @@ impl Ini {
             Ini::QosViol => 0x9B,
             Ini::RetainViol => 0x9A,
             Ini::SubIdViol => 0xA1,
-            Ini::AliasUnknown => 0x94,
+            Ini::AliasUnknown | Ini::AliasUnknownBig => 0x94,
             Ini::TooLarge => 0x95,
             Ini::KeepAlive => 0x8D,
             _ => return None,
@@ -261,6 +263,13 @@ impl Scenario for Dc {
                 }
                 self.conn.send(&p);
             }
+            Ini::AliasUnknownBig => {
+                let mut p = rf::publish(0, 0, "", b"a");
+                if let Pkt::Publish { props, .. } = &mut p {
+                    props.push((0x23, PVal::U16(9)));
+                }
+                self.conn.send(&p);
+            }
             Ini::TooLarge => {
                 self.conn.send(&rf::publish(0, 0, "t", &[b'z'; 100]));
             }
@@ -448,6 +457,7 @@ pub fn configs(tier: Tier) -> Vec<DcCfg> {
             // dedicated codes, each also combined with an earlier/later close or peer disconnect
             (vec![AliasUnknown, TooLarge, PeerDisc, CloseNoReason], false),
             (vec![Pub1, Pub1, AliasUnknown, HOk], false),
+            (vec![AliasUnknownBig, AliasUnknown, Pub1, HOk], false),
             (vec![TooLarge, Close, Pub1, HErr], false),
         ];
         if server {
